@@ -19,7 +19,7 @@ import time
 from concurrent.futures import ThreadPoolExecutor
 
 ROOT = os.path.dirname(os.path.dirname(os.path.dirname(os.path.abspath(__file__))))
-REPO = '/repo'
+REPO = os.environ.get('RV_ZOO_SRC', '/repo')
 
 from rv.selftest.zoo_entries import ZOO   # noqa: E402
 
@@ -53,7 +53,10 @@ def run_one(entry, tier, tests):
     try:
         shutil.copytree(os.path.join(REPO, 'pyins'), os.path.join(dest, 'pyins'),
                         ignore=shutil.ignore_patterns('__pycache__'))
-        apply(entry, dest)
+        try:
+            apply(entry, dest)
+        except RuntimeError as e:
+            return dict(id=mid, props=[(prop, 4, ['STALE PATTERN: ' + str(e)[:200]])], wall=0)
         env = dict(os.environ, RV_REPO=dest, RV_JOBS=os.environ.get('RV_ZOO_JOBS', '8'))
         env.pop('PYTHONPATH', None)
         t0 = time.time()
@@ -88,6 +91,8 @@ def main():
     ap.add_argument('--jobs', type=int, default=2)
     a = ap.parse_args()
     entries = [e for e in ZOO if a.only is None or a.only in e[1].split(',') or e[0].startswith(a.only)]
+    skip = set(open(os.environ['RV_ZOO_SKIP']).read().split()) if os.environ.get('RV_ZOO_SKIP') else set()
+    entries = [e for e in entries if e[0] not in skip]
     missed = 0
     with ThreadPoolExecutor(a.jobs) as ex:
         for res in ex.map(lambda e: run_one(e, a.tier, a.tests), entries):
